@@ -420,33 +420,50 @@ Proof.
     pose proof (skipn_length (w - 1) t). apply IH; lia.
 Qed.
 
-Section Utf8Arith.
-Local Ltac Zify.zify_post_hook ::= Z.div_mod_to_equations.
-Local Ltac dstep :=
+Lemma div64_facts r :
+  r = 64 * (r / 64) + r mod 64 /\ r mod 64 < 64 /\
+  r / 64 = 64 * (r / 4096) + (r / 64) mod 64 /\ (r / 64) mod 64 < 64 /\
+  r / 4096 = 64 * (r / 262144) + (r / 4096) mod 64 /\ (r / 4096) mod 64 < 64.
+Proof.
+  repeat split; try (apply N.mod_lt; lia); try (apply N.div_mod; lia).
+  - replace (r / 4096) with (r / 64 / 64) by (rewrite N.div_div by lia; reflexivity). apply N.div_mod; lia.
+  - replace (r / 262144) with (r / 4096 / 64) by (rewrite N.div_div by lia; reflexivity). apply N.div_mod; lia.
+Qed.
+
+(* lia does not see through N.div / N.modulo: name the quotients and remainders *)
+Ltac absdiv :=
+  repeat match goal with
+  | |- context [N.modulo ?a ?b] => let x := fresh "m" in set (x := N.modulo a b) in *; clearbody x
+  | H : context [N.modulo ?a ?b] |- _ => let x := fresh "m" in set (x := N.modulo a b) in *; clearbody x
+  | |- context [N.div ?a ?b] => let x := fresh "q" in set (x := N.div a b) in *; clearbody x
+  | H : context [N.div ?a ?b] |- _ => let x := fresh "q" in set (x := N.div a b) in *; clearbody x
+  end.
+Ltac dstep :=
   match goal with
-  | |- context [N.ltb ?a ?b] => destruct (N.ltb_spec a b); try (exfalso; lia)
-  | |- context [N.leb ?a ?b] => destruct (N.leb_spec a b); try (exfalso; lia)
-  | |- context [N.eqb ?a ?b] => destruct (N.eqb_spec a b); try (exfalso; lia)
+  | |- context [N.eqb ?a ?b] => destruct (N.eqb_spec a b); try (exfalso; absdiv; lia)
+  | |- context [N.ltb ?a ?b] => destruct (N.ltb_spec a b); try (exfalso; absdiv; lia)
+  | |- context [N.leb ?a ?b] => destruct (N.leb_spec a b); try (exfalso; absdiv; lia)
   end; cbn [andb orb negb].
 
 Lemma decode1_encode r rest : scalar r ->
   exists b0 tl, encode_rune r = b0 :: tl /\ decode1 b0 (tl ++ rest) = (r, S (length tl)).
 Proof.
   intros Hs. unfold scalar in Hs. unfold encode_rune.
+  destruct (div64_facts r) as (F1 & F2 & F3 & F4 & F5 & F6).
   destruct (N.ltb_spec r 128).
-  { eexists _, _. split; [reflexivity|]. unfold decode1. cbn [app length]. dstep. reflexivity. }
+  { eexists _, _. split; [reflexivity|]. unfold decode1. cbn [app length].
+    destruct (N.ltb_spec r 128); [reflexivity | lia]. }
   destruct (N.ltb_spec r 2048).
   { eexists _, _. split; [reflexivity|]. unfold decode1, is_cont. cbn [app length].
-    repeat dstep. f_equal. lia. }
+    repeat dstep. f_equal. absdiv. lia. }
   destruct (N.leb_spec 55296 r); destruct (N.leb_spec r 57343); destruct (N.ltb_spec 1114111 r);
     cbn [andb orb]; try (exfalso; lia);
     (destruct (N.ltb_spec r 65536);
      [ eexists _, _; split; [reflexivity|]; unfold decode1, is_cont; cbn [app length]; cbv zeta;
-       repeat dstep; f_equal; lia
+       repeat dstep; f_equal; absdiv; lia
      | eexists _, _; split; [reflexivity|]; unfold decode1, is_cont; cbn [app length]; cbv zeta;
-       repeat dstep; f_equal; lia ]).
+       repeat dstep; f_equal; absdiv; lia ]).
 Qed.
-End Utf8Arith.
 
 Theorem utf8_roundtrip rs : Forall scalar rs -> utf8_decode (utf8_encode rs) = rs.
 Proof.
@@ -456,7 +473,7 @@ Proof.
   rewrite He. cbn [app length utf8_decode_fuel]. rewrite Hd. f_equal.
   replace (S (length tl) - 1)%nat with (length tl) by lia.
   rewrite skipn_app, skipn_all, Nat.sub_diag. cbn [skipn app].
-  rewrite <- IH at 2. apply decode_fuel_enough; rewrite ?app_length; lia.
+  etransitivity; [|exact IH]. apply decode_fuel_enough; rewrite ?app_length; lia.
 Qed.
 
 (* so a format that is well-formed UTF-8 (the encoding of some sequence of scalar values:
@@ -487,23 +504,26 @@ Proof.
   destruct (H c (or_introl eq_refl)) as [n ->]. reflexivity.
 Qed.
 
+Definition sum_writes (a : Z) (c : rwcall) : Z := match c with RwWrite n => (a + n)%Z | RwHeader _ => a end.
+Lemma rw_size cs : forall st, snd (fold_left rw_step cs st) = fold_left sum_writes cs (snd st).
+Proof.
+  induction cs as [|c cs IH]; intros st; [reflexivity|].
+  cbn [fold_left]. rewrite IH. destruct c; reflexivity.
+Qed.
+
 (* informational responses, then the final status, then the body: the logged status is the
    final one (not the first WriteHeader), the logged size the sum of the body writes *)
 Theorem rw_code_is_final infos final ws :
   (forall c, In c ws -> exists n, c = RwWrite n) ->
-  fst (rw_run (map RwHeader infos ++ [RwHeader final] ++ ws)) = final /\
-  snd (rw_run (map RwHeader infos ++ [RwHeader final] ++ ws)) =
-    fold_left (fun a c => match c with RwWrite n => (a + n)%Z | RwHeader _ => a end) ws 0%Z.
+  rw_run (map RwHeader infos ++ RwHeader final :: ws) = (final, fold_left sum_writes ws 0%Z).
 Proof.
-  intros Hw. rewrite !rw_run_app.
-  assert (Hi : forall l st, snd (fold_left rw_step (map RwHeader l) st) = snd st).
-  { induction l as [|k l IH]; intros st; [reflexivity|]. cbn [map fold_left]. now rewrite IH. }
-  split.
+  intros Hw. rewrite rw_run_app. cbn [fold_left].
+  rewrite (surjective_pairing (fold_left rw_step ws _)). f_equal.
   - rewrite rw_writes by exact Hw. reflexivity.
-  - cbn [fold_left rw_step]. pose proof (Hi infos (0, 0)%Z) as Hs. cbn [snd] in Hs.
-    generalize dependent (fold_left rw_step (map RwHeader infos) (0, 0)%Z). intros st Hs.
-    destruct st as [c0 s0]. cbn [snd fst] in *. subst s0.
-    clear Hw Hi. generalize 0%Z at 1 3. revert final.
-    induction ws as [|c ws IH]; intros final z; [reflexivity|].
-    cbn [fold_left]. destruct c as [k|n]; cbn [rw_step fst snd]; apply IH.
+  - rewrite rw_size. cbn [rw_step snd]. unfold rw_run. rewrite rw_size. cbn [snd].
+    f_equal. induction infos as [|k l IH]; [reflexivity | exact IH].
 Qed.
+
+Example rw_example :
+  rw_run [RwHeader 103; RwHeader 102; RwHeader 201; RwWrite 100; RwWrite 51] = (201, 151)%Z.
+Proof. reflexivity. Qed.
